@@ -17,7 +17,7 @@ RULE = ('generated specs whose routes take struct arguments with inherited, defa
         'walker finds equal to the struct built from the parameters (the union itself / None for Void) and '
         'the body for uploads; DeprecationWarning iff deprecated; returns the recorded result (None for a '
         'Void result). non-trivial = struct argument with inherited and optional fields, or cross-namespace '
-        'argument, or upload / deprecated route; distinct by (spec, route, call).')
+        'argument, or upload / deprecated route; distinct by (spec, route, call). One argument struct in three (or an ancestor) gains a tag-default field whose union lives in another namespace, directly or through an alias declared in the struct namespace; literal defaults are compared as the compiler accepted them.')
 ASSUMPTIONS = ['Route arguments are structs, unions or Void (the statement\'s domain); the _to_file variants '
                'of download routes are not judged.']
 
